@@ -498,8 +498,22 @@ func runHostileConns(c HostileConnCase) (*hcStats, error) {
 			if s.Cookie != "" {
 				proto = s.Cookie
 			}
-			h.send([]byte("GET /stream HTTP/1.1\r\nHost: x\r\nConnection: Upgrade\r\nUpgrade: websocket\r\nSec-WebSocket-Version: 13\r\nSec-WebSocket-Key: " + key +
-				"\r\nSec-WebSocket-Protocol: " + proto + "\r\n\r\n"))
+			hs := "GET /stream HTTP/1.1\r\nHost: x\r\nConnection: Upgrade\r\nUpgrade: websocket\r\n"
+			// Version / CLen / CSeq reuse their fields: a handshake with another version, or without a key
+			if s.Version != "" {
+				hs += "Sec-WebSocket-Version: " + s.Version + "\r\n"
+			} else {
+				hs += "Sec-WebSocket-Version: 13\r\n"
+			}
+			if s.CSeq != "missing" {
+				hs += "Sec-WebSocket-Key: " + key + "\r\n"
+			}
+			hs += "Sec-WebSocket-Protocol: " + proto + "\r\n\r\n"
+			if s.Ms == 1 && len(s.Raw) > 0 {
+				h.send(append([]byte(hs), s.Raw...)) // data pipelined right behind the handshake, in the same segment
+				continue
+			}
+			h.send([]byte(hs))
 			time.Sleep(20 * time.Millisecond)
 			if len(s.Raw) > 0 {
 				h.send(s.Raw) // whatever follows is interpreted as WebSocket frames
